@@ -1,4 +1,5 @@
 import MpgsModel.Model.Client
+import MpgsModel.Model.ToyAead
 import MpgsModel.Model.DriverUtil
 /-! Line-protocol driver for the C12 additions to the Conn layer (`Model/Client.lean`): the
     `UdpClient` settings wrapper, the `ServerContext` record with the places of the server loop that
@@ -59,6 +60,20 @@ def showSettings (c : Conn) : String :=
 def cdump (c : Conn) : String :=
   s!"st={statusNum c.status} {showSettings c} si={c.sendInterval} last={c.lastRecv},{c.lastSend},{c.lastKeepAlive} " ++
   s!"hs={c.helloSentAt} ccb={if c.hasConnectCb then 1 else 0} srv={if c.isServer then 1 else 0} out={c.outgoing.length} pa={c.pendingAcks.length}"
+
+/-- no server hello parses: every hello handler call raises -/
+def badHs : Hs := ⟨fun _ => .error .exception, fun _ => .error .exception, fun _ _ _ => false,
+  fun _ => .error .exception, fun _ => .error .exception, fun _ _ => [], fun _ _ => ([], []), fun _ => []⟩
+
+def showOut : Out → Option String
+  | .ev .dropped => none
+  | .ev e => some (showEvent e)
+  | .emit h _ => some s!"pkt ty={h.ptype.toNat} seq={h.seq} count={h.count}"
+  | .raised e => some ("err:" ++ (match e with | .exception => "hs" | x => errName x))
+  | .ret .accepted => some "T"
+  | .ret .rejected => some "F"
+  | .ret (.raised _) => some "E"
+  | .took _ => none
 
 def stepLine (st : St) (line : String) : St × List String :=
   let ws := words line
@@ -180,12 +195,18 @@ def stepLine (st : St) (line : String) : St × List String :=
       let r := clientSend st.sz c t
       (setC st n r.1, [showPkt r.2.2 ++ " ev=" ++ showEvents r.2.1])
     | _, _ => (st, ["bad-op"])
-  | "utick" :: n :: rest =>
-    match getC st n, kvInt rest "t" with
-    | some c, some t =>
-      let r := clientTick st.sz c t
-      (setC st n r.1, [s!"st={statusNum r.1.status} {showPkt r.2.2} ev={showEvents r.2.1}"])
-    | _, _ => (st, ["bad-op"])
+  | "uupd" :: n :: rest =>
+    -- the whole of UdpClient.update() with the datagrams waiting on the socket
+    match getC st n, kvInt rest "t", kv rest "rx" with
+    | some c, some t, some rx =>
+      match (if rx == "-" then some [] else (rx.splitOn ",").mapM fromHex) with
+      | none => (st, ["bad-op"])
+      | some inbox =>
+        let E : Env := ⟨st.sz, Toy.crypto, clientRole badHs⟩
+        let r := clientUpdateFull E c t inbox
+        let outs := r.2.1.filterMap showOut
+        (setC st n r.1, [s!"st={statusNum r.1.status} unread={r.2.2.length} {if outs.isEmpty then "-" else ",".intercalate outs}"])
+    | _, _, _ => (st, ["bad-op"])
   | "cupd" :: n :: rest =>
     match getC st n, kvInt rest "t" with
     | some c, some t =>
